@@ -141,6 +141,22 @@ CHECKS['C02'] = dict(
          'somebody else has nothing in front of him (betting invariant).',
     technique='sidecar contracts + own VC generator over the real AST + z3 against an independent rule spec; abstract hands; AST frame scan')
 
+CHECKS['C14'] = dict(
+    category='proof',
+    text='Each rule of the statement is a clause on the real function that implements it, compared with spec/runouts.py: _begin_showdown '
+         'offers the choice iff cash-game mode, not offered before and community cards still to come, to exactly the players in the hand; '
+         'verify_runout_count_selection refuses exactly a player who was not offered / has chosen and a count below one, takes a named player '
+         'as named (any order); select_runout_count clears that player\'s flag only, leaves the showdown queue alone, and combines the '
+         'preference with what was agreed so far (k only if all who expressed one said k, otherwise 1); _end_showdown schedules the streets '
+         'after the all-in k times, once; _end_bet_collection resumes dealing at that street with one run-out fewer to go; board_count is '
+         'b*r; get_board_cards gives board j the early cards of starting board j // r and its own later cards; deal_board serves the first '
+         'board still owed cards and appends each card to the row of its position. All values symbolic per shape.',
+    design_ref='DESIGN.md section 4 (C14), section 8',
+    note='D/shape (players, streets, boards b, run-outs <= R as listed in the evidence). "Each board complete at the end" is the sum of '
+         'the per-pass clauses over the log (paper induction); even division of pots between boards is proved under C02, no card twice '
+         'under C06.',
+    technique='sidecar contracts + own VC generator over the real AST + z3 against an independent rule spec; native replay of counter-models')
+
 NOT_APPLICABLE = {
     'C20': 'regex-driven text importers against external site formats; no contract within reach expresses or decides it (DESIGN.md section 5)',
 }
